@@ -202,6 +202,7 @@ func leaves() []*Expr {
 		Access(Var("context"), "a"), Access(Access(Var("context"), "r"), "b"), Var("context"), Access(Var("context"), "s"), Var("principal"), Access(Var("resource"), "a"), Access(Var("principal"), "a"), Var("resource"),
 		L(Long(1)), L(Str("s")), L(Bool(true)), L(Entity("U", "alice")), L(Set(Long(1), Long(2))), L(Rec(KV{"a", Long(1)}, KV{"r", Rec(KV{"b", Long(1)})}, KV{"s", Set(Long(1), Long(2))})), L(Entity("G", "g2")),
 		L(Rec(KV{"k", Long(1)})), L(Set(Long(1))), L(Set(Rec(KV{"k", Set(Long(1))}))),
+		Access(Var("context"), "r"), L(Set(Rec(KV{"b", Long(1)}), Rec(KV{"b", Long(2)}))), L(Set(Set(Long(1), Long(2)), Set(Long(2)))),
 	}
 }
 
@@ -562,7 +563,7 @@ func Check() *core.Check {
 		ID:        "C06",
 		HangAfter: 120 * time.Second, // cases take at most seconds (max_case_s in the evidence); see core.Family.HangAfter
 		Title:     "Partial evaluation is sound for every completion of the unknowns",
-		Rule: "bounded-exhaustive: policies (scope-form pairs; every operator form over 18 leaves in 4 policy shapes; lists of 1..3 when/unless clauses; depth-2 short-circuit/structural parents) x 26 partial environments (unknown principal/action/resource/context, unknowns nested up to three levels deep in context records and sets (set in record, record in set, set in set, set in record in set), the same unknown twice, ignored parts, an unknown part together with an ignored one) x every completion from universes that hit both branches of the comparisons; kept => residual satisfied iff original; dropped => original never satisfied; ignored part (permit) => original satisfied implies kept and residual satisfied; " +
+		Rule: "bounded-exhaustive: policies (scope-form pairs; every operator form over 21 leaves in 4 policy shapes; lists of 1..3 when/unless clauses; depth-2 short-circuit/structural parents) x 26 partial environments (unknown principal/action/resource/context, unknowns nested up to three levels deep in context records and sets (set in record, record in set, set in set, set in record in set), the same unknown twice, ignored parts, an unknown part together with an ignored one) x every completion from universes that hit both branches of the comparisons; kept => residual satisfied iff original; dropped => original never satisfied; ignored part (permit) => original satisfied implies kept and residual satisfied; " +
 			"a case is non-trivial if under some environment with unknowns the original is satisfied for some completions and not for others",
 		Assumptions: []string{"satisfaction is judged by x/exp/eval.Eval on PolicyToNode (its conformance is C01)", "forbid policies under ignored parts are not constrained by the property and are skipped"},
 		Families: func(tier string) []*core.Family {
